@@ -247,7 +247,7 @@ def fresh_reference(text, opts, as_path, rng):
     os.unlink(path)
     if p.returncode != 0:
         raise RuntimeError("reference interpreter failed: " + p.stderr[-500:])
-    return json.loads(p.stdout)
+    return json.loads(p.stdout.rsplit("@@C03REF@@", 1)[-1])
 
 
 def opts_for_ref(opts):
@@ -295,6 +295,9 @@ def run_history(case, rng, viol, counts, classes):
             pool.append((i, concretise(["PARAMS"], text, rng)))
             pool.append((i, concretise(["PARAMS"], text, rng)))
             pool.append((i, []))
+            # the shipped parameter file under its bare name: found in the package whatever the working
+            # directory holds (two of the four working directories hold another file of that name)
+            pool.append((i, ["-p", "propka.cfg"]))
     calls = [rng.choice(pool) for _ in range(rng.randrange(5, 13))]
     calls[rng.randrange(len(calls))] = calls[0]         # make sure something repeats
     refs = {}
